@@ -422,7 +422,7 @@ func (s *Session) writeCompressed(rw io.ReadWriter, p *Proposal) (err error) {
 	writer := bufio.NewWriter(rw)
 
 	var (
-		title    = mime.QEncoding.Encode("utf-8", p.title) // Word-encode the title since this field must be ASCII-only
+		title    = encodeTitle(p.title) // Word-encode the title since this field must be ASCII-only
 		offset   = fmt.Sprintf("%d", p.offset)
 		length   = len(title) + len(offset) + 2
 		checksum int64
@@ -523,6 +523,17 @@ func (s *Session) writeCompressed(rw io.ReadWriter, p *Proposal) (err error) {
 	statusTicker.Stop()
 
 	return err
+}
+
+// encodeTitle word-encodes the title, shortening it until it fits the 80 bytes allowed by the
+// protocol (the header length is a single byte).
+func encodeTitle(title string) string {
+	encoded := mime.QEncoding.Encode("utf-8", title)
+	for r := []rune(title); len(encoded) > 80 && len(r) > 1; {
+		r = r[:len(r)-1]
+		encoded = mime.QEncoding.Encode("utf-8", string(r))
+	}
+	return encoded
 }
 
 func (s *Session) readCompressed(rw io.ReadWriter, p *Proposal) (err error) {
